@@ -540,6 +540,8 @@ func (en *DefaultEngine) exec(ctx context.Context, input []byte) (bool, error) {
 	code, err = en.vm.Run(ctx, code)
 	if err != nil {
 		logg.ErrorCtxf(ctx, "fail VM run with state", "code", en.st.Code, "state", en.st.String(), "vm", en.vm)
+		// keep the instructions that are left, or the session has no code to continue with
+		en.st.SetCode(code)
 		return false, err
 	}
 	en.execd = true
